@@ -24,14 +24,16 @@ LAYERS = {10: ('raised', 'the read raised on coordinates of the property\'s doma
           3: ('content', 'a returned object does not hold the content of the position it is stamped with'),
           4: ('repeat', 'a returned object keeps a repeat count although the read expands repetitions'),
           5: ('live', 'an object documented as a copy is live: mutating it changed the table'),
-          6: ('sibling', 'mutating an object documented as a copy changed another returned object')}
+          6: ('sibling', 'mutating an object documented as a copy changed another returned object'),
+          12: ('row-stored-narrower-than-area', 'get_cells(area): the answer is exactly the model\'s and correct in every other respect, but for rows stored narrower than the area the '
+               'padding cells are missing, although the docstring promises "the exact number of cells of the area" (F30)')}
 NOTES = {9: 'only the exact result (repeat kept by a non-expanding read, liveness of a clone=False handle) differs from the model'}
 SOFT = {8: 'the model does not meet the specification (an instance of a C08 theorem fails)', 11: 'state outside the modelled fragment'}
 TRUSTED = ['lxml parse/serialise (objects and table are abstracted from their own serialisation)',
            'the mutations performed on returned objects go through Element.set_attribute / Cell.set_value / the repeated setters / Row.append_cell of the implementation',
            'the grid specification Grid.v as the meaning of "the content of position (x, y)"']
 MODELLED = ('table.py: get_cell get_row get_cells cells get_rows rows traverse _yield_odf_rows get_column get_columns columns traverse_columns get_column_cells; '
-            'row.py: Row.get_cell Row.traverse Row.cells Row.get_cells; Element.clone / Row.clone / Cell.clone / Column.clone as "Detached"; the repaired code (F13 F30 F32 F110). '
+            'row.py: Row.get_cell Row.traverse Row.cells Row.get_cells; Element.clone / Row.clone / Cell.clone / Column.clone as "Detached"; the code as it is (F13 F32 F110 repaired, F30 = known finding). '
             'NOT modelled: the filters style= content= cell_type=, flat=True (same objects, concatenated), header rows / groups.')
 KINDS = ['empty', 'prefilled', 'rle', 'rle', 'sample']
 GETTERS = ['get_cell', 'get_cell', 'get_row', 'get_row', 'get_cells', 'get_cells', 'get_cells', 'cells', 'get_rows', 'rows', 'traverse', 'traverse',
@@ -357,7 +359,7 @@ def evaluate(results, tag, checker='chk08'):
     for i, (case, res) in enumerate(results):
         if res['term'] is not None:
             terms.append(res['term']); idx.append(i)
-    bad, errors = common.run_shards(HEADER, terms, checker, tag, shard=min(400, max(1, len(terms) // 16 + 1)))
+    bad, errors = lb.run_shards_retry(HEADER, terms, checker, tag, min(400, max(1, len(terms) // 16 + 1)))
     return {idx[k]: c for k, c in bad.items()}, errors
 
 
@@ -417,7 +419,7 @@ def run(tier, seed, replay=None):
         case, res = results[i]
         rec = res['records'][0]
         g = case['getter']
-        name = g[0] + ('[clone=False,keep_repeated=False]' if g[0] == 'get_cell' and not g[3] and not g[4] else '')
+        name = g[0] + ('[clone=False,keep_repeated=False]' if g[0] == 'get_cell' and not g[3] and not g[4] else '') + ('[area]' if layer == 12 else '')
         key = '%s/%s' % (name, LAYERS[layer][0])
         if key in seen_keys:
             continue
